@@ -212,6 +212,13 @@ def run(prog: Program, rep: Report, tier: str) -> None:
     rep.rule("R01.2", "Tracker.update stores X + (Uadv + Udiff)*dt/dx (coefficient of the advective velocity exactly 1), y twin with dy", 8)
     rep.rule("R01.3", "advection schemes do not modify their input positions in place", 3)
     rep.rule("R01.4", "scheme-name map is the identity on the guarded literal list", 3)
+    rep.rule("R01.5", "the stage velocities are the forcing's time interpolation evaluated at the stage's time fraction, in both directions (shared with C03 R03.5)", 10)
+    from . import c03
+
+    sub = Report(pid="C01")
+    c03.fractional(prog, sub)
+    for o in sub.obligations:
+        rep.add("R01.5", o.func, f"[{o.rule}] {o.construct}", o.verdict == "ok" if o.verdict != "undecided" else None, o.what, o.loc)
 
     # R01.4 name map
     upd = prog.func("tracker.Tracker.update")
